@@ -1,0 +1,7 @@
+//go:build !verif
+
+package ast
+
+func verifLexRead() {}
+
+func verifYield(site string) {}
